@@ -161,7 +161,24 @@ def check(ctx):
                    key=f"C16.1:{q}:{p}",
                    effects=[repr(e) for e in effs[:3]])
     # main_ape.ape / main_rpe.rpe are documented mutators of both
-    # trajectories and are not subjects (DESIGN 5/C16.1).
+    # trajectories and are not subjects (DESIGN 5/C16.1) — except for the
+    # one promise rpe() makes: with support_loop=True the restriction to the
+    # pair end poses must not shrink the caller's trajectories ("avoid
+    # overwriting if called repeatedly").
+    frpe = prog.func("evo.main_rpe.rpe")
+    rr = Interp(prog).run(frpe, {"support_loop": tm.const(True)})
+    reds = [e for e in rr.of_kind("call")
+            if (e.data.get("name") or "").endswith(".reduce_to_ids")]
+    ctx.require(len(reds) >= 2, "rpe(): reduce_to_ids calls not found")
+    for e in reds:
+        rs = roots(e.data["recv"])
+        ctx.ob("C16.1", e, not rs,
+               "rpe(support_loop=True): the restriction to the pair end "
+               "poses acts on a private deep copy" if not rs else
+               f"rpe(support_loop=True): reduce_to_ids shrinks the caller's "
+               f"trajectory {sorted(rs)}: a second call on the same objects "
+               f"(notebook loop) computes its pairs on the already reduced "
+               f"trajectories", key="C16.1:rpe:support_loop:copies")
 
     # ---------------------------------------------------------------- C16.2
     for q in sorted(results):
